@@ -317,6 +317,30 @@ def behaviour_sample(seed, n, rdir):
             res[(j[0], j[1])] = (out, err)
     bad = []
     compared = 0
+    # -m exists so that several translated modules can be linked into one program: two modules without data segments
+    # (data segment names are documented as not prefixed) translated with -m must link together without symbol clashes
+    plain = [m for m in classes.get("none", []) if wasm_function_count(os.path.join(REPO, "tests", "gen", m + ".wasm")) >= 2]
+    for pi in range(2 if n <= 6 else 12):
+        if len(plain) < 2:
+            break
+        a, b = rnd.sample(plain, 2)
+        wd = os.path.join(rdir, "mm-%d" % pi)
+        os.makedirs(wd, exist_ok=True)
+        try:
+            objs = []
+            for tag, m in (("a", a), ("b", b)):
+                r = subprocess.run([xl, "-m", os.path.join(REPO, "tests", "gen", m + ".wasm"), "%s_%s.c" % (tag, safe_name(m))], cwd=wd, stdout=subprocess.PIPE, stderr=subprocess.PIPE, timeout=120)
+                if r.returncode != 0:
+                    raise BuildError("translate -m failed: " + r.stderr.decode(errors="replace")[-300:])
+                run_cmd(["gcc", "-O0", "-w", "-DWASM_THREADS_PTHREADS", "-I" + os.path.join(REPO, "w2c2"), "-I" + wd, "-c", "%s_%s.c" % (tag, safe_name(m)), "-o", tag + ".o"], cwd=wd)
+                objs.append(tag + ".o")
+            if a.replace(".", "") != b.replace(".", ""):
+                run_cmd(["gcc", "-r", "-nostdlib", "-o", "ab.o"] + objs, cwd=wd)
+            compared += 1
+        except (BuildError, subprocess.TimeoutExpired) as e:
+            bad.append({"module": a + "+" + b, "variant": "-m:two-modules", "class": "multiple-modules-link-fails", "error": str(e)[-700:]})
+        finally:
+            shutil.rmtree(wd, ignore_errors=True)
     for m in pick:
         base, berr = res[(m, "default")]
         if base is None:
